@@ -62,11 +62,16 @@ theorem C02_within_budget (b : Bytes) : runWithinBudget (parse b) b.length = tru
   have h4 := C02_depth b
   simp [runWithinBudget, withinBudget, h1, h2, h3, h4]
 
-/-- the budget as plain numbers at the datagram limit: fewer than 3.5 million activations -/
+/-- the budget as plain numbers at the datagram limit.  (The label-read bound is the product of the
+three factors — names, activations per name, reads per activation — because the code really can
+redo that work: a record whose rdata name fails is skipped and the next one may walk the same
+chain again.  It is a fixed budget, not a small one.) -/
 theorem C02_work_8966 (b : Bytes) (hb : b.length ≤ 8966) :
-    (parse b).st.names ≤ 26900 ∧ (parse b).st.acts ≤ 3470100 := by
-  obtain ⟨h1, h2, _⟩ := C02_work b
-  omega
+    (parse b).st.names ≤ 26900 ∧ (parse b).st.acts ≤ 3470100 ∧ (parse b).st.reads ≤ 31112916600 := by
+  obtain ⟨h1, h2, h3⟩ := C02_work b
+  refine ⟨by omega, by omega, ?_⟩
+  calc (parse b).st.reads ≤ b.length * (parse b).st.acts := h3
+    _ ≤ 8966 * 3470100 := Nat.mul_le_mul hb (by omega)
 
 /-- **Short names.** Every name on the returned object — question names, owner names, PTR/CNAME
 targets, SRV targets, NSEC next names — is at most 253 characters long (valid or not). -/
@@ -93,12 +98,58 @@ theorem C02_agrees_strict (b : Bytes) (m : WMsg) (h : Strict.decode b = some m)
     ∃ p, (parse b).out = .ok p ∧ agrees p m = true :=
   parse_agrees libCfg_ok libCfg_agree b m h hs hr
 
-/-- the literal sentence of the property, without the `reencodable` proviso.  It holds of the tree
-without the D8 repair and is deliberately given up by that repair (a strict-accepted question whose
-label is 40 × `0xFF` is rejected: `corpus/C02/d8-label-40xff.json`); see notes/agents/C02.md. -/
+/-- the literal sentence of the property, without the `reencodable` proviso -/
 def C02_agrees_strict_literal : Prop :=
   ∀ (b : Bytes) (m : WMsg), Strict.decode b = some m → Strict.supportedOnly m = true →
     ∃ p, (parse b).out = .ok p ∧ agrees p m = true
+
+/-- the D8 witness, evaluated: the strict parser accepts it, it has no unsupported record, and the
+object the decoder builds does not agree with it (it is marked invalid and has no question) -/
+theorem d8_witness_evaluated :
+    (match Strict.decode d8Witness with
+     | some m => Strict.supportedOnly m && !reencodable m &&
+        (match (parse d8Witness).out with
+         | .ok p => !agrees p m && !p.valid && p.questions.isEmpty
+         | _ => false)
+     | none => false) = true := by
+  decide +kernel
+
+/-- **The literal sentence is false of the tree with the D8 repair**: the decoder-level repair of D8
+deliberately rejects a strict-accepted datagram (a label of 40 × `0xFF`, `corpus/C02/d8-label-40xff.json`).
+This is the content of the `reencodable` proviso of `C02_agrees_strict`. -/
+theorem C02_agrees_strict_literal_refuted : ¬ C02_agrees_strict_literal := by
+  intro h
+  have hw := d8_witness_evaluated
+  cases hd : Strict.decode d8Witness with
+  | none => rw [hd] at hw; simp at hw
+  | some m =>
+    rw [hd] at hw
+    simp only [Bool.and_eq_true] at hw
+    obtain ⟨⟨hs, _⟩, hp⟩ := hw
+    obtain ⟨p, hout, hag⟩ := h d8Witness m hd hs
+    rw [hout] at hp
+    simp [hag] at hp
+
+/-- **… and true of the decoder without that test** (`noD8Cfg`: hop bound of D2, no label test): there
+the agreement needs no proviso about labels. -/
+theorem C02_agrees_strict_literal_without_d8 (b : Bytes) (m : WMsg) (h : Strict.decode b = some m)
+    (hs : Strict.supportedOnly m = true) :
+    ∃ p, (parseWith noD8Cfg b).out = .ok p ∧ agrees p m = true :=
+  parse_agrees_noD8 b m h hs
+
+/-- **The 253-character limit, at the boundary, and where it departs from RFC 1035.**  A question name
+of 253 characters (254 octets on the wire) is accepted by the decoder and by `Wire.Strict`; one of 254
+characters — 255 octets on the wire, the longest name RFC 1035 §2.3.4 allows — is rejected by both
+(the object is marked invalid).  The property's first sentence demands exactly this of the decoder;
+`Wire.Strict` follows the library's documented limit here, so `C02_agrees_strict` says nothing about
+that one RFC-legal length (reading recorded in notes/agents/C02.md). -/
+theorem C02_name_limit_boundary :
+    (parse (longNameQuestion 60)).parsed?.map (fun p => (p.valid, p.questions.map (fun q => nameLen q.name))) = some (true, [253])
+    ∧ (Strict.decode (longNameQuestion 60)).isSome = true
+    ∧ (parse (longNameQuestion 61)).parsed?.map (fun p => (p.valid, p.questions.length)) = some (false, 0)
+    ∧ (Strict.decode (longNameQuestion 61)).isSome = false
+    ∧ (longNameQuestion 61).length = 12 + 255 + 4 := by
+  decide +kernel
 
 /-- the hypotheses are satisfiable by a message with content: a PTR question `a.` and a PTR answer
 owned by a pointer to it, whose rdata `b.a.` is compressed as well -/
@@ -110,10 +161,20 @@ example : (Strict.decode [0,0, 0x84,0, 0,1, 0,1, 0,0, 0,0,  1,97,0, 0,12, 0,1,
 
 /-- the name-level core of the agreement, for every state of the name cache that can arise -/
 theorem C02_name_agrees_strict (b : Bytes) (st : St) (n : WName) (e : Nat)
-    (h : Strict.decName b st.off = some (n, e)) (hl : ∀ l ∈ n, Utf8.reencodedLen l ≤ 63)
+    (h : Strict.decName b st.off = some (n, e)) (hl : ∀ l ∈ n, Reencodable l)
     (hc : CacheOK b st.cache) :
     ∃ st', readName libCfg b st = (st', .ok n) ∧ st'.off = e ∧ CacheOK b st'.cache :=
   readName_agrees libCfg_ok libCfg_agree b st n e h hl hc
+
+/-- … and on that message the conclusion is not vacuous either: the decoder's object is the valid one
+with that question and that answer -/
+example : (match Strict.decode [0,0, 0x84,0, 0,1, 0,1, 0,0, 0,0,  1,97,0, 0,12, 0,1,
+                                 0xC0,12, 0,12, 0,1, 0,0,0,120, 0,4, 1,98,0xC0,12],
+                 (parse [0,0, 0x84,0, 0,1, 0,1, 0,0, 0,0,  1,97,0, 0,12, 0,1,
+                         0xC0,12, 0,12, 0,1, 0,0,0,120, 0,4, 1,98,0xC0,12]).out with
+           | some m, .ok p => agrees p m && p.valid && decide (p.records.length = 1)
+           | _, _ => false) = true := by
+  decide +kernel
 
 /-- a compressed name (`a.b` at 12, then `c` + pointer to 14) is decoded by both to `c.b` -/
 example : Strict.decName [0,0,0,0,0,0,0,0,0,0,0,0, 1,97,1,98,0, 1,99,0xC0,14] 17 = some ([[99],[98]], 21)
